@@ -588,6 +588,9 @@ struct BCase {
 	easing: Easing,
 	pre: Vec<usize>,
 	partition: Vec<usize>,
+	/// target Track only: the track has no effect, no child and no sound while the tween is issued;
+	/// the sound is played this many frames later (0 = the sound is there from the start)
+	late: usize,
 }
 
 fn decode_b(src: &mut Src) -> BCase {
@@ -603,6 +606,7 @@ fn decode_b(src: &mut Src) -> BCase {
 		easing: gen_easing(src),
 		pre: (0..src.usize_in(0, 2)).map(|_| src.pick(&[64usize, 1, 10])).collect(),
 		partition: (0..src.usize_in(1, 4)).map(|_| src.pick(&[64usize, 1, 7, 100, 23, 256])).collect(),
+		late: if src.chance(1, 2) { src.pick(&[200usize, 1, 17, 64, 1500, 4000]) } else { 0 },
 	}
 }
 
@@ -618,17 +622,17 @@ fn run_manager(c: &BCase) -> Result<(bool, bool, bool), Failure> {
 	if c.target == BTarget::Main {
 		mgr.main_track().set_volume(init(BTarget::Main), Tween { duration: Duration::ZERO, ..Default::default() });
 	}
+	let late = if c.target == BTarget::Track { c.late } else { 0 };
 	let mut tb = TrackBuilder::new().volume(init(BTarget::Track));
-	let mut effect = tb.add_effect(VolumeControlBuilder::new(init(BTarget::Effect)));
+	let mut effect = if late == 0 { Some(tb.add_effect(VolumeControlBuilder::new(init(BTarget::Effect)))) } else { None };
 	let mut track = mgr.add_sub_track(tb).map_err(|_| Failure::simple("setup", "track"))?;
-	let mut sound = track
-		.play(StaticSoundData {
-			sample_rate: c.rate,
-			frames: (0..64).map(|_| Frame::from_mono(1.0)).collect::<Vec<_>>().into(),
-			settings: StaticSoundSettings::new().loop_region(..).volume(init(BTarget::Sound)),
-			slice: None,
-		})
-		.map_err(|_| Failure::simple("setup", "play"))?;
+	let data = StaticSoundData {
+		sample_rate: c.rate,
+		frames: (0..64).map(|_| Frame::from_mono(1.0)).collect::<Vec<_>>().into(),
+		settings: StaticSoundSettings::new().loop_region(..).volume(init(BTarget::Sound)),
+		slice: None,
+	};
+	let mut sound = if late == 0 { Some(track.play(data.clone()).map_err(|_| Failure::simple("setup", "play"))?) } else { None };
 	// settle (the sound's first frames pass through its resampler)
 	mgr.backend_mut().callback(32, 2);
 	let a_from = db_to_amp(c.from_db as f64);
@@ -637,6 +641,9 @@ fn run_manager(c: &BCase) -> Result<(bool, bool, bool), Failure> {
 	for n in &c.pre {
 		let cb = mgr.backend_mut().callback(*n, 2);
 		for i in 0..*n {
+			if late > 0 {
+				break;
+			}
 			let (l, _) = cb.frame(i, 2);
 			ensure!((l as f64 - a_from).abs() <= tol(a_from), "holds-start-value-before-the-tween", "before any command the output is {l}, the start volume {} dB is {a_from}; case {c:?}", c.from_db);
 		}
@@ -655,8 +662,8 @@ fn run_manager(c: &BCase) -> Result<(bool, bool, bool), Failure> {
 	match c.target {
 		BTarget::Main => mgr.main_track().set_volume(Decibels(c.to_db), tween),
 		BTarget::Track => track.set_volume(Decibels(c.to_db), tween),
-		BTarget::Sound => sound.set_volume(Decibels(c.to_db), tween),
-		BTarget::Effect => effect.set_volume(Decibels(c.to_db), tween),
+		BTarget::Sound => sound.as_mut().unwrap().set_volume(Decibels(c.to_db), tween),
+		BTarget::Effect => effect.as_mut().unwrap().set_volume(Decibels(c.to_db), tween),
 	}
 	let curve = |t: f64| -> f64 {
 		// decibel value t seconds after the tween's start
@@ -668,13 +675,24 @@ fn run_manager(c: &BCase) -> Result<(bool, bool, bool), Failure> {
 			c.from_db as f64 + (c.to_db as f64 - c.from_db as f64) * ease_ref(c.easing, t / dur)
 		}
 	};
-	let total = c.delay_frames + c.dur_frames + 2 * c.buf + 64;
+	let total = (c.delay_frames + c.dur_frames + 2 * c.buf + 64).max(if late > 0 { late + 256 + 2 * c.buf } else { 0 });
 	let mut done = 0usize; // frames since the start of the callback that picked the command up
 	let mut k = 0;
 	let mut short = false;
+	// frames before this one are not judged (the late sound is not there yet / still passing through
+	// its resampler)
+	let mut judge_from = 0usize;
 	while done < total {
 		let n = c.partition[k % c.partition.len()];
 		k += 1;
+		if late > 0 && sound.is_none() {
+			if done >= late {
+				sound = Some(track.play(data.clone()).map_err(|_| Failure::simple("setup", "play"))?);
+				judge_from = done + 32;
+			} else {
+				judge_from = usize::MAX;
+			}
+		}
 		let cb = mgr.backend_mut().callback(n, 2);
 		if let Some(p) = &cb.guard.panic {
 			return Err(Failure::panic("", p));
@@ -684,6 +702,9 @@ fn run_manager(c: &BCase) -> Result<(bool, bool, bool), Failure> {
 			let len = c.buf.min(n - i);
 			short |= dur > 0.0 && dur < len as f64 * dt;
 			for j in 0..len {
+				if done + i + j < judge_from {
+					continue;
+				}
 				let (l, r) = cb.frame(i + j, 2);
 				let (lo, hi) = (a_from.min(a_to), a_from.max(a_to));
 				ensure!(l == r && l as f64 >= lo - tol(lo) && l as f64 <= hi + tol(hi), "never-outside-start-and-target", "frame {} after the command: output ({l}, {r}) is outside [{lo}, {hi}] (tween {} dB -> {} dB); case {c:?}", done + i + j, c.from_db, c.to_db);
@@ -698,7 +719,7 @@ fn run_manager(c: &BCase) -> Result<(bool, bool, bool), Failure> {
 			let (a1, a2) = (db_to_amp(d1), db_to_amp(d2));
 			let (lo, hi) = (a1.min(a2), a1.max(a2));
 			let slack = tol(hi);
-			if !((l as f64) >= lo - slack && (l as f64) <= hi + slack) {
+			if done + i + len - 1 >= judge_from && !((l as f64) >= lo - slack && (l as f64) <= hi + slack) {
 				let sig = if t_end - delay - lag >= dur + 2.0 * TIME_SLACK { "ends-exactly-on-target-after-the-duration" } else { "follows-the-curve-in-audio-time" };
 				return Err(Failure::new(sig, sig, format!("{:.9} s of audio after the command was picked up (frame {}), tween {} dB -> {} dB over {dur} s delayed {delay} s: output {l}, the curve gives [{lo}, {hi}]; case {c:?}", t_end, done + i + len, c.from_db, c.to_db)));
 			}
@@ -857,7 +878,7 @@ impl Property for C06 {
 		"C06"
 	}
 	fn rule(&self) -> &'static str {
-		"each case drives one public kira::Parameter<T> (T in f64, f32, Decibels, Panning, PlaybackRate, Mix, ClockSpeed with all unit pairs, Duration, Vec3, Quat) or the tweener modulator through a generated history of set(target, tween) and update(dt) calls: durations 0 / shorter than an update / long, all seven easings with positive powers, starts immediate / delayed / on a mock clock, overlapping set() calls mid-tween, update steps of buffer size, fractions of it, and multiples. After every update the value is checked against start + (target-start)*ease(elapsed/duration) evaluated with an independent easing implementation over the timing window the property grants (exact for immediate starts; one update for delayed and clock starts): held exactly before the start, inside the hull during, exactly the target once the whole window is past the end, never outside [start, target], previous_value/interpolated_value continuous. One case in six instead tweens a live volume (main track, sub-track, sound or volume-control effect) of a DC signal path through the real manager at 8192..48000 Hz with internal buffers 1..128 and callback sizes that are not multiples of the buffer: the output holds the start value before the command, stays inside [start, target], is on the curve at the end of every internal buffer for the audio time elapsed since the command was picked up (one buffer of lag granted to delayed starts) and is exactly the target once the duration has passed. One case in 240 drives an f64 parameter through 20 000..150 000 updates of one frame at 44.1..192 kHz and checks every 997th value against the curve at the elapsed audio time (two updates of slack, 1e-9 of the span). Non-trivial = a retarget mid-tween, a tween shorter than one update, a non-linear easing, or (manager cases) a callback size that is not a multiple of the buffer; distinct = distinct decoded choices."
+		"each case drives one public kira::Parameter<T> (T in f64, f32, Decibels, Panning, PlaybackRate, Mix, ClockSpeed with all unit pairs, Duration, Vec3, Quat) or the tweener modulator through a generated history of set(target, tween) and update(dt) calls: durations 0 / shorter than an update / long, all seven easings with positive powers, starts immediate / delayed / on a mock clock, overlapping set() calls mid-tween, update steps of buffer size, fractions of it, and multiples. After every update the value is checked against start + (target-start)*ease(elapsed/duration) evaluated with an independent easing implementation over the timing window the property grants (exact for immediate starts; one update for delayed and clock starts): held exactly before the start, inside the hull during, exactly the target once the whole window is past the end, never outside [start, target], previous_value/interpolated_value continuous. One case in six instead tweens a live volume (main track, sub-track, sound or volume-control effect) of a DC signal path through the real manager at 8192..48000 Hz with internal buffers 1..128 and callback sizes that are not multiples of the buffer: the output holds the start value before the command, stays inside [start, target], is on the curve at the end of every internal buffer for the audio time elapsed since the command was picked up (one buffer of lag granted to delayed starts) and is exactly the target once the duration has passed; half of the sub-track cases tween the volume of a track that is empty at the time (no sound, no effect, no child) and only play the sound 1..4000 frames later - from then on the output must be on the same curve, counted from the command. One case in 240 drives an f64 parameter through 20 000..150 000 updates of one frame at 44.1..192 kHz and checks every 997th value against the curve at the elapsed audio time (two updates of slack, 1e-9 of the span). Non-trivial = a retarget mid-tween, a tween shorter than one update, a non-linear easing, or (manager cases) a callback size that is not a multiple of the buffer; distinct = distinct decoded choices."
 	}
 	fn assumptions(&self) -> Vec<String> {
 		vec![
